@@ -574,11 +574,14 @@ func (m *Model) Candidates() []Candidate {
 	return cs
 }
 
-// ExpectedSelection is the documented pipeline: filter → sort → size prefix → arbitration (first of each conflict class wins).
+// ExpectedSelection is the documented pipeline: filter → sort → size prefix → arbitration.
+// Arbitration follows the statement ("the included one is the one that comes first in that order"): a transaction is left out
+// exactly when it conflicts with an EARLIER-ordered eligible transaction of the size prefix — whether or not that earlier one is
+// itself included.  (For a chain of conflicts P1–M–P2 the statement's two clauses cannot both hold for the pair (M, P2); the
+// reading chosen here is the one under which every included transaction precedes all eligible transactions it conflicts with.)
 func (m *Model) ExpectedSelection() []Candidate {
 	var out []Candidate
 	total := 0
-	spent := map[Hash]bool{}
 	for _, c := range m.Candidates() {
 		if !c.Elig {
 			continue
@@ -590,20 +593,20 @@ func (m *Model) ExpectedSelection() []Candidate {
 		out = append(out, c)
 	}
 	var sel []Candidate
-	for _, c := range out {
+	for i, c := range out {
 		conflict := false
-		for _, in := range c.Txn.In {
-			if spent[in] {
-				conflict = true
+		for _, e := range out[:i] {
+			for _, a := range c.Txn.In {
+				for _, b := range e.Txn.In {
+					if a == b {
+						conflict = true
+					}
+				}
 			}
 		}
-		if conflict {
-			continue
+		if !conflict {
+			sel = append(sel, c)
 		}
-		for _, in := range c.Txn.In {
-			spent[in] = true
-		}
-		sel = append(sel, c)
 	}
 	return sel
 }
